@@ -72,13 +72,21 @@ def relational(cases, impl):
     for i, c in enumerate(cases):
         groups.setdefault(c.meta['group'], []).append(i)
     for g, idx in groups.items():
-        base = [i for i in idx if cases[i].meta.get('fault') is None]
+        base = [i for i in idx if cases[i].meta.get('fault') is None and cases[i].meta.get('role') != 'run']
+        runs = [i for i in idx if cases[i].meta.get('role') == 'run']
+        if base and runs and not is_crash(impl[base[0]]) and not is_crash(impl[runs[0]]):
+            fp = parse_fields(impl[base[0]]); fr = parse_fields(impl[runs[0]])
+            wbytes = ''.join(t[2:] for t in parse_list(fp.get('tr', '[]')) if t.startswith('W:')) or '-'
+            overflow = any(e in fp.get('errs', '') for e in ('-223', '-310'))
+            complete = all(x == '0' for x in parse_list(fr.get('rest', '[]')))
+            if complete and not overflow and wbytes != fr.get('out'):
+                fails.append((base[0], f'process wrote {wbytes}, the query responses of this stream are {fr.get("out")} (it must write nothing else)'))
         if not base or is_crash(impl[base[0]]):
             continue
         ref = parse_list(parse_fields(impl[base[0]]).get('tr', '[]'))
         for i in idx:
             k = cases[i].meta.get('fault')
-            if k is None or is_crash(impl[i]):
+            if k is None or is_crash(impl[i]) or cases[i].meta.get('role') == 'run':
                 continue
             tr = parse_list(parse_fields(impl[i]).get('tr', '[]'))
             if tr != ref[:k[0]]:
@@ -90,7 +98,7 @@ def relational(cases, impl):
 def cases(tier, rng, ifaces):
     out = []
     echo = ifaces['echo']
-    streams = [b'*IDN?\n', b'X\n*IDN?\nX\n', b'ECHO:U8? 1;:ECHO:U8? 2\nFOO\nECHO:BOOL? ON\n', b'STR "a\nb";:CHAR?\n', b'\n\n', b'ARB?\nLONG?\n',
+    streams = [b'*IDN?;:STR "ab\ncd"\n', b'CHAR?;:BLK #15ab\ncd;*IDN?\n', b'ECHO:U8? 7;:STR "\n\n";:ECHO:U8? 8\n', b'*IDN?\n', b'X\n*IDN?\nX\n', b'ECHO:U8? 1;:ECHO:U8? 2\nFOO\nECHO:BOOL? ON\n', b'STR "a\nb";:CHAR?\n', b'\n\n', b'ARB?\nLONG?\n',
                b'SYST:ERR?\nNOPE\nSYST:ERR?\nSYST:ERR:COUN?\n', b'X']
     from .C06 import gen_message
     for _ in range(20 if tier == 'quick' else 300):
@@ -103,6 +111,8 @@ def cases(tier, rng, ifaces):
                 ss = ','.join(map(str, sched)) or '-'
                 base = f'PROC echo {n} {hx(s)} {ss}'
                 out.append(Case(base, oracle, {'group': gid, 'kind': 'PROC-nofault'}))
+                if n >= 64 and len(s) <= n:   # every message certainly fits the command buffer
+                    out.append(Case(f'RUN echo std {hx(s)}', None, {'group': gid, 'kind': 'RUN-whole', 'role': 'run'}))
                 # number of calls of the fault-free run is unknown here: inject up to a generous bound
                 bound = min(len(s) * 2 + 12, 60 if tier == 'quick' else 200)
                 for k in range(bound):
